@@ -269,6 +269,8 @@ def _one_seeded(d, props_all, tier):
         meta = json.load(f)
     sid = os.path.basename(d)
     res = {"id": sid, "property": meta["property"]}
+    if meta.get("outside_statement"):
+        res["outside"] = meta["outside_statement"]
     tmp = tempfile.mkdtemp(prefix="cvss-seeded-")
     root = os.path.join(tmp, "repo")
     try:
@@ -318,13 +320,18 @@ def seeded(only, tier):
                 r["id"], r["property"], r.get("tests_passed"), len(r.get("tests_failed", [])), r.get("demo_on_unchanged"),
                 r.get("demo_on_changed"), r.get("verdict"), r["wall_s"],
                 (r.get("checks", {}).get(r["property"], {}).get("signatures") or [""])[0][11:170]))
-            if r.get("verdict") != "caught":
+            if r.get("outside"):
+                r["verdict_raw"] = r.get("verdict")
+                r["verdict"] = "outside-statement(%s)" % ("not detected, as intended" if r.get("verdict") == "MISSED" else r.get("verdict"))
+                print("%-28s %s -> %s: %s" % (r["id"], r["property"], r["verdict"], r["outside"][:200]))
+            elif r.get("verdict") != "caught":
                 print(json.dumps(r, indent=1)[:3000])
             sys.stdout.flush()
     with open(os.path.join(core.VERIF, "selftest", "seeded_result_%s.json" % tier), "w") as f:
         json.dump(results, f, indent=1, sort_keys=True)
-    bad = [r for r in results if r.get("verdict") != "caught"]
-    print("selftest-seeded (%s tier): %d caught, %d not" % (tier, len(results) - len(bad), len(bad)))
+    bad = [r for r in results if r.get("verdict") != "caught" and not r.get("outside")]
+    n_out = sum(1 for r in results if r.get("outside"))
+    print("selftest-seeded (%s tier): %d caught, %d not, %d outside the statement (informational)" % (tier, len(results) - len(bad) - n_out, len(bad), n_out))
     return 1 if bad else 0
 
 
